@@ -19,4 +19,10 @@ set_option maxRecDepth 100000 in
 theorem explore_dual : ∀ pre ∈ preStates, explore genTable (goodFor pre) 18 (init true pre) = true := by
   decide +kernel
 
+/-- one dial or two simultaneous dials between peers that BOTH cache the pre-existing connection, no environment
+event: the three properties, and the shared connection stays cached at both sides and open -/
+theorem explore_shared : ∀ dual ∈ [false, true], ∀ pre ∈ sharedStates,
+    explore genTable (fun s => goodStrict s && keepsShared s) 18 (init dual pre) = true := by
+  decide +kernel
+
 end Specter.C41
